@@ -117,6 +117,36 @@ def gen_lp_cases(ctx, label, n, stab_bias=0.3, pc_bias=0.3, crit_names=None, n_c
                    crits=[[c, x] for c, x in crits], argv=argv, ast=ast)
 
 
+OPTION_SETS = [
+    [], [('maxsize', [])], [('minsize', [])], [('gen', [])], [('gre', [])], [('mincost', [])], [('minsqcost', [1, 1])],
+    [('lmb', [])], [('lsb', [])], [('mincostlsb', [])], [('maxsize', []), ('mincost', [1, 1])],
+    [('mincost', [0, 1]), ('maxsize', [])], [('gen', [1]), ('gre', [2])], [('lmb', []), ('lsb', [])],
+    [('lsb', []), ('maxsize', []), ('gre', [])], [('minsize', []), ('mincostlsb', [2, 1])],
+    [('gre', [1]), ('minsqcost', [])], [('maxsize', []), ('gen', [])],
+]
+
+
+def small_scope_cases(ctx, label, gen_kwargs):
+    """every abstract file of instgen.enum_small, each with an option set chosen in rotation (and -pc / -stab /
+    -twopl in rotation where admissible)"""
+    rng = ctx.rng(label + '/small')
+    force_twopl = gen_kwargs.get('force_twopl')
+    stab_all = gen_kwargs.get('stab_bias', 0) >= 1.0
+    for i, ast in enumerate(instgen.enum_small()):
+        crits = OPTION_SETS[i % len(OPTION_SETS)]
+        twopl = True if force_twopl else (i % 3 != 0)
+        stab = twopl and (stab_all or i % 4 == 1)
+        pc = (i % 5 == 2)
+        if 'crit_names' in gen_kwargs or 'n_crits' in gen_kwargs:
+            # keep the shape the relation asks for (e.g. exactly one criterion, or two and more)
+            want = gen_kwargs.get('n_crits')
+            pool = [c for c in OPTION_SETS if (want is None and len(c) >= 2) or (want is not None and len(c) == want)]
+            crits = pool[i % len(pool)] if pool else crits
+        argv = argv_of(ast['na'], twopl, pc, stab, crits, None)
+        yield dict(text=instgen.render(ast), na=ast['na'], twopl=twopl, pc=pc, stab=stab,
+                   crits=[[c, list(x)] for c, x in crits], argv=argv, ast=ast)
+
+
 def copts(inp):
     return recorder.copts(inp['pc'], inp['stab'], [(c, x) for c, x in inp['crits']])
 
@@ -132,8 +162,14 @@ class LPRelation(Relation):
     n_quick = 150
     n_thorough = 1200
 
+    small_scope = True      # thorough tier: also the exhaustive small scope of instgen.enum_small
+
     def cases(self, ctx):
-        return gen_lp_cases(ctx, self.name, self.n_thorough if ctx.thorough else self.n_quick, **self.gen_kwargs)
+        for c in gen_lp_cases(ctx, self.name, self.n_thorough if ctx.thorough else self.n_quick, **self.gen_kwargs):
+            yield c
+        if ctx.tier == 'thorough' and not ctx.search and self.small_scope:
+            for c in small_scope_cases(ctx, self.name, self.gen_kwargs):
+                yield c
 
     def observe(self, inp):
         return lp_run(inp['text'], inp['argv'])
